@@ -193,6 +193,7 @@ func poolRuns(sp spec) string {
 		pool.StartWorkers(outer)
 
 		okDone := make([]atomic.Bool, n)
+		taskFailed := make([]atomic.Bool, n)
 		entries := make([]atomic.Int32, n)
 		var inTask, maxIn, entered, cbIn, cbOut atomic.Int32
 		var bad atomic.Value
@@ -227,6 +228,7 @@ func poolRuns(sp spec) string {
 					runtime.Gosched()
 				}
 				if failing[i] {
+					taskFailed[i].Store(true)
 					return dag.CacheMiss, errFail
 				}
 				if ctx.Err() != nil && i%2 == 0 { // half of the tasks notice the cancellation
@@ -254,25 +256,28 @@ func poolRuns(sp spec) string {
 		anyFail := len(sp.Fail) > 0
 		early := wasCancelled || (sp.FF && anyFail)
 		if early {
-			// Walk may have returned through ctx.Done while tasks are still finishing: reading the map
-			// now would be the racing read of cmds/build.go (sub-command race); wait for the callbacks
-			settled := false
-			for t := 0; t < 200; t++ {
-				if cbIn.Load() == cbOut.Load() {
-					settled = true
-					break
-				}
-				time.Sleep(100 * time.Microsecond)
-			}
+			// Walk may have returned through ctx.Done while routines are still running and writing the
+			// completions map: reading it here would be the racing read of cmds/build.go (sub-command
+			// race; the caller has no way to know when the writes stop).  Use the harness' own record.
 			if wasCancelled {
 				cancelledRuns++
 			}
-			if !settled {
-				unsettled++ // a job left in the closed pool: its routine never returns (model: orphaned Queued)
-				cancel()
-				continue
+			for t := 0; t < 50 && cbIn.Load() != cbOut.Load(); t++ {
+				time.Sleep(100 * time.Microsecond)
 			}
-			time.Sleep(200 * time.Microsecond) // onComplete runs right after the callback returned
+			if cbIn.Load() != cbOut.Load() {
+				unsettled++ // e.g. a job left in the closed pool: its routine never returns (model: orphaned Queued)
+			}
+			for i := 0; i < n; i++ {
+				for _, a := range anc[i] {
+					if taskFailed[a].Load() && entries[i].Load() > 0 {
+						cancel()
+						return fmt.Sprintf("anomaly %s run=%d node %d ran although its transitive dependency %d failed", sp.ID, r, i, a)
+					}
+				}
+			}
+			cancel()
+			continue
 		}
 		// accounting on the completion map
 		for i := 0; i < n; i++ {
